@@ -202,7 +202,9 @@ def check_raw_copies(prop: str, res: Result, repo: Repo, want=("method", "append
             d_arm, o_arm = (branch[0].body, branch[0].orelse) if default_first else (branch[0].orelse, branch[0].body)
             o_calls = [c for st in o_arm for c in calls_in(st) if call_target(c) == "self.candles.extend"]
             d_calls = [c for st in d_arm for c in calls_in(st) if call_target(c) == "self.candles.extend"]
-            ok = len(o_calls) == 1 and len(d_calls) == 1 and _is_raw_copy_comp(o_calls[0].args[0], "candles_") and ast.unparse(d_calls[0].args[0]) == "candles_"
+            # both arms extend from the same local: the normalised list of incoming candles
+            src = ast.unparse(d_calls[0].args[0]) if len(d_calls) == 1 and d_calls[0].args and isinstance(d_calls[0].args[0], ast.Name) else None
+            ok = len(o_calls) == 1 and len(d_calls) == 1 and src is not None and _is_raw_copy_comp(o_calls[0].args[0], src)
         if ok:
             res.ok(rule, {"site": ap.where, "why": "the default manager adopts the candles; every other manager extends with candle.raw_copy() of each"}, nontrivial="append:raw_copy")
         else:
